@@ -119,7 +119,12 @@ func relexRecovery(s string) (toks []token.Token, crashed any) {
 	return toks, "no <eof>"
 }
 
-func c10Check(s string, roots []ast.Node) (nbad int, detail string) {
+// c10Check evaluates C10 on every BadNode of the returned trees. site is non-empty when the only disagreement is the
+// recorded finding "site:BadNode.sliceContext": the node holds exactly the tokens of the WHOLE input that lie in its range,
+// but the slice lexed on its own gives other tokens because the lexer is context dependent at the cut.
+func c10Check(s string, roots []ast.Node) (nbad int, detail string, site string) {
+	var whole []token.Token
+	wholeDone := false
 	for _, root := range roots {
 		if isNilNode(root) {
 			continue
@@ -131,51 +136,79 @@ func c10Check(s string, roots []ast.Node) (nbad int, detail string) {
 			}
 			nbad++
 			if !(0 <= bn.NodePos && bn.NodePos <= bn.NodeEnd && int(bn.NodeEnd) <= len(s)) {
-				return nbad, fmt.Sprintf("Bad node range %d..%d outside the input", bn.NodePos, bn.NodeEnd)
+				return nbad, fmt.Sprintf("Bad node range %d..%d outside the input", bn.NodePos, bn.NodeEnd), ""
 			}
 			toks, crashed := relexRecovery(s[bn.NodePos:bn.NodeEnd])
 			if crashed != nil {
-				return nbad, fmt.Sprint("re-lexing the Bad node range failed: ", crashed)
+				return nbad, fmt.Sprint("re-lexing the Bad node range failed: ", crashed), ""
 			}
-			if len(toks) != len(bn.Tokens) {
-				return nbad, fmt.Sprintf("Bad node %d..%d holds %d tokens, its range lexes to %d", bn.NodePos, bn.NodeEnd, len(bn.Tokens), len(toks))
-			}
-			// a token right after "." is lexed as an identifier in context; in isolation the first token may differ in kind only
-			afterDot := bn.NodePos > 0 && s[bn.NodePos-1] == '.'
-			for i, t := range bn.Tokens {
-				// a <bad> number ("5" glued to the following "then") owes its kind to the byte AFTER the range: re-lexed alone it is a plain number
-				lastBadNumber := i == len(bn.Tokens)-1 && t.Kind == token.TokenBad && (toks[i].Kind == token.TokenInt || toks[i].Kind == token.TokenFloat)
-				if t.Raw != toks[i].Raw || (t.Kind != toks[i].Kind && !(i == 0 && afterDot) && !lastBadNumber) {
-					return nbad, fmt.Sprintf("Bad node token %d is %s %q, its range lexes to %s %q", i, t.Kind, t.Raw, toks[i].Kind, toks[i].Raw)
-				}
-				if int(t.Pos) != int(bn.NodePos)+int(toks[i].Pos) && !(t.Kind == ">" && len(t.Raw) == 2) {
-					return nbad, fmt.Sprintf("Bad node token %d at %d, expected %d", i, t.Pos, int(bn.NodePos)+int(toks[i].Pos))
-				}
-			}
+			d := c10Compare(bn, toks)
 			if len(bn.Tokens) > 0 {
 				if bn.Tokens[0].Pos != bn.NodePos || bn.Tokens[len(bn.Tokens)-1].End != bn.NodeEnd {
-					return nbad, fmt.Sprintf("Bad node range %d..%d but tokens span %d..%d", bn.NodePos, bn.NodeEnd, bn.Tokens[0].Pos, bn.Tokens[len(bn.Tokens)-1].End)
+					return nbad, fmt.Sprintf("Bad node range %d..%d but tokens span %d..%d", bn.NodePos, bn.NodeEnd, bn.Tokens[0].Pos, bn.Tokens[len(bn.Tokens)-1].End), ""
 				}
 			} else if bn.NodePos != bn.NodeEnd {
-				return nbad, "Bad node without tokens has a non-empty range"
+				return nbad, "Bad node without tokens has a non-empty range", ""
 			}
-			// SQL() re-lexes to the same token sequence
 			var sql string
 			if p := safely(func() { sql = bn.SQL() }); p != nil {
-				return nbad, fmt.Sprint("BadNode.SQL() panicked: ", p)
+				return nbad, fmt.Sprint("BadNode.SQL() panicked: ", p), ""
 			}
 			st, crashed := relexRecovery(sql)
+			if d != "" {
+				// the slice on its own lexes differently: is it the context at the cut, and nothing else?
+				if !wholeDone {
+					whole, _ = relexRecovery(s)
+					wholeDone = true
+				}
+				var ctx []token.Token
+				for _, t := range whole {
+					if t.Pos >= bn.NodePos && t.End <= bn.NodeEnd {
+						ctx = append(ctx, t)
+					}
+				}
+				same := len(ctx) == len(bn.Tokens)
+				for i := 0; same && i < len(ctx); i++ {
+					same = ctx[i].Kind == bn.Tokens[i].Kind && ctx[i].Raw == bn.Tokens[i].Raw && ctx[i].Pos == bn.Tokens[i].Pos && ctx[i].End == bn.Tokens[i].End
+				}
+				// and SQL() must still re-lex the way the range itself does
+				same = same && crashed == nil && len(st) == len(toks)
+				for i := 0; same && i < len(st); i++ {
+					same = st[i].Raw == toks[i].Raw && st[i].Kind == toks[i].Kind
+				}
+				if same {
+					return nbad, d, "site:BadNode.sliceContext"
+				}
+				return nbad, d, ""
+			}
+			// SQL() re-lexes to the same token sequence
 			if crashed != nil || len(st) != len(bn.Tokens) {
-				return nbad, fmt.Sprintf("BadNode.SQL() = %q lexes to %d tokens, the node holds %d", sql, len(st), len(bn.Tokens))
+				return nbad, fmt.Sprintf("BadNode.SQL() = %q lexes to %d tokens, the node holds %d", sql, len(st), len(bn.Tokens)), ""
 			}
 			for i, t := range bn.Tokens {
 				if st[i].Raw != t.Raw {
-					return nbad, fmt.Sprintf("BadNode.SQL() = %q: token %d is %q, expected %q", sql, i, st[i].Raw, t.Raw)
+					return nbad, fmt.Sprintf("BadNode.SQL() = %q: token %d is %q, expected %q", sql, i, st[i].Raw, t.Raw), ""
 				}
 			}
 		}
 	}
-	return nbad, ""
+	return nbad, "", ""
+}
+
+// c10Compare: the tokens of the slice lexed on its own against BadNode.Tokens (kinds, spellings, offsets).
+func c10Compare(bn *ast.BadNode, toks []token.Token) string {
+	if len(toks) != len(bn.Tokens) {
+		return fmt.Sprintf("Bad node %d..%d holds %d tokens, its range lexes to %d", bn.NodePos, bn.NodeEnd, len(bn.Tokens), len(toks))
+	}
+	for i, t := range bn.Tokens {
+		if t.Raw != toks[i].Raw || t.Kind != toks[i].Kind {
+			return fmt.Sprintf("Bad node token %d is %s %q, its range lexes to %s %q", i, t.Kind, t.Raw, toks[i].Kind, toks[i].Raw)
+		}
+		if int(t.Pos) != int(bn.NodePos)+int(toks[i].Pos) && !(t.Kind == ">" && len(t.Raw) == 2) {
+			return fmt.Sprintf("Bad node token %d at %d, expected %d", i, t.Pos, int(bn.NodePos)+int(toks[i].Pos))
+		}
+	}
+	return ""
 }
 
 func propC10(o *propOpts) *propResult {
@@ -185,11 +218,16 @@ func propC10(o *propOpts) *propResult {
 		if r.hung || r.panicked != nil {
 			return
 		}
-		nbad, d := c10Check(s, r.nodes)
+		nbad, d, site := c10Check(s, r.nodes)
 		res.count(fmt.Sprintf("badnodes_%d", min(nbad, 4)))
 		res.eval(e.name+"|"+s, nbad > 0, func() any { return map[string]any{"entry": e.name, "input": s, "bad_nodes": nbad} })
 		if d != "" {
-			res.fail("input:"+e.name+":"+hx(s), s, e.name, d)
+			if site != "" {
+				res.count("known_sliceContext")
+				res.fail(site, s, e.name, d)
+			} else {
+				res.fail("input:"+e.name+":"+hx(s), s, e.name, d)
+			}
 		}
 	})
 	return res
